@@ -54,10 +54,14 @@ type Frame struct {
 type deferred struct {
 	Site *ssa.Defer
 	Recv Val
+	Fn   Val // the function value, evaluated at the defer statement (closures)
 	Args []Val
 }
 
 type State struct {
+	InitMark    int    // objects with a smaller id were allocated by the package initialisers: package-level state
+	GlobalWrite string // the first store of this run into such an object ("" = none)
+	Owned       map[int]bool // large init-time objects (tables) are shared between states until written: those this state has copied
 	Frames  []*Frame
 	Heap    map[int]*HObj
 	next    int
@@ -78,6 +82,7 @@ type State struct {
 type HookFn func(m *Machine, st *State, call *ssa.CallCommon, args []Val) (alts []Val, handled bool)
 
 type Machine struct {
+	inInit     bool // package initialisers are running: their writes to package-level variables are the initial state
 	P          *Prog
 	Alpha      *Alphabet
 	Hooks      map[string]HookFn
@@ -128,6 +133,71 @@ func (m *Machine) liveOf(fn *ssa.Function) *liveInfo {
 	return li
 }
 
+// keyEqual compares a map key that may contain input-class symbols with a stored key.
+func (m *Machine) keyEqual(a, b Val) (eq, decided bool) {
+	switch x := a.(type) {
+	case *ArrayV:
+		y, ok := b.(*ArrayV)
+		if !ok || len(x.E) != len(y.E) {
+			return false, ok
+		}
+		eq = true
+		for i := range x.E {
+			e, d := m.keyEqual(x.E[i], y.E[i])
+			if !d {
+				return false, false
+			}
+			eq = eq && e
+		}
+		return eq, true
+	case *StructV:
+		y, ok := b.(*StructV)
+		if !ok || len(x.F) != len(y.F) {
+			return false, ok
+		}
+		eq = true
+		for i := range x.F {
+			e, d := m.keyEqual(x.F[i], y.F[i])
+			if !d {
+				return false, false
+			}
+			eq = eq && e
+		}
+		return eq, true
+	case string, int64, bool:
+		switch y := b.(type) {
+		case string, int64, bool:
+			return x == y, true
+		case SymV:
+			return m.keyEqual(y, x)
+		}
+		return false, false
+	case SymV:
+		if m.Alpha == nil || x.C < 0 || x.C >= len(m.Alpha.Members) {
+			return false, false
+		}
+		switch y := b.(type) {
+		case int64:
+			in := false
+			for _, mb := range m.Alpha.Members[x.C] {
+				if int64(mb) == y {
+					in = true
+				}
+			}
+			if !in {
+				return false, true
+			}
+			return true, len(m.Alpha.Members[x.C]) == 1
+		case SymV:
+			if x.C != y.C {
+				return false, true
+			}
+			return true, len(m.Alpha.Members[x.C]) == 1
+		}
+	}
+	return false, false
+}
+
 func (m *Machine) NewState(fn *ssa.Function, args []Val, ntapes int) *State {
 	st := &State{Heap: map[int]*HObj{}, Notes: map[string]bool{}}
 	if m.Base != nil {
@@ -157,10 +227,20 @@ func (st *State) push(fn *ssa.Function, args []Val, bind []Val) {
 func (st *State) top() *Frame { return st.Frames[len(st.Frames)-1] }
 
 func (st *State) Clone() *State {
-	n := &State{next: st.next, Status: st.Status, Ret: cloneVal(st.Ret), NeedT: st.NeedT, NeedP: st.NeedP, Msg: st.Msg, Steps: st.Steps}
+	n := &State{InitMark: st.InitMark, GlobalWrite: st.GlobalWrite, next: st.next, Status: st.Status, Ret: cloneVal(st.Ret), NeedT: st.NeedT, NeedP: st.NeedP, Msg: st.Msg, Steps: st.Steps}
 	n.Heap = make(map[int]*HObj, len(st.Heap))
 	for k, o := range st.Heap {
+		if k < st.InitMark && !st.Owned[k] && bigTable(o.V) {
+			n.Heap[k] = o // copy on write (own)
+			continue
+		}
 		n.Heap[k] = &HObj{T: o.T, V: cloneVal(o.V)}
+	}
+	if len(st.Owned) > 0 {
+		n.Owned = make(map[int]bool, len(st.Owned))
+		for k := range st.Owned {
+			n.Owned[k] = true
+		}
 	}
 	for _, t := range st.Tapes {
 		n.Tapes = append(n.Tapes, &Tape{Base: t.Base, Syms: append([]int(nil), t.Syms...)})
@@ -238,11 +318,54 @@ func (st *State) load(p Ptr) (Val, bool) {
 	return v, true
 }
 
+// bigTable: lookup tables worth sharing between states.
+func bigTable(v Val) bool {
+	switch x := v.(type) {
+	case *ArrayV:
+		return len(x.E) > 32
+	case *MapObjV:
+		return len(x.K) > 16
+	}
+	return false
+}
+
+// own gives the state its private copy of a shared init-time table before it is written.
+func (st *State) own(obj int) {
+	if obj >= st.InitMark || st.Owned[obj] {
+		return
+	}
+	if o := st.Heap[obj]; o != nil && bigTable(o.V) {
+		st.Heap[obj] = &HObj{T: o.T, V: cloneVal(o.V)}
+		if st.Owned == nil {
+			st.Owned = map[int]bool{}
+		}
+		st.Owned[obj] = true
+	}
+}
+
+// noteGlobalWrite records a write into an object that exists since package initialisation.
+func (st *State) noteGlobalWrite(obj int) {
+	if st.InitMark == 0 || st.GlobalWrite != "" {
+		return
+	}
+	for g, id := range st.Globals {
+		if id == obj && g.Pkg != nil && strings.HasPrefix(g.Pkg.Pkg.Path(), repoModule) {
+			st.GlobalWrite = g.Pkg.Pkg.Name() + "." + g.Name()
+			return
+		}
+	}
+	if obj < st.InitMark {
+		st.GlobalWrite = fmt.Sprintf("an object allocated by a package initialiser (#%d)", obj)
+	}
+}
+
 func (st *State) store(p Ptr, nv Val) bool {
+	st.own(p.Obj)
 	o := st.Heap[p.Obj]
 	if o == nil {
 		return false
 	}
+	st.noteGlobalWrite(p.Obj)
 	path := splitPath(p.Path)
 	if len(path) == 0 {
 		o.V = nv
@@ -392,7 +515,30 @@ var nontermFns = map[*ssa.Function]string{} // functions in which a run exceeded
 var execCount = map[ssa.Instruction]int{}
 var execPanics = map[ssa.Instruction]string{}
 
+// globalMutations collects, for exact-mode runs that start from an initialised state, the
+// package-level variables of the repository whose (deep) value differs between the start and the
+// end of a top-level run: name -> description. The Cnn-STATE rules report them.
+var globalMutations = map[string]string{}
+
 func (m *Machine) Run(st *State) []*State {
+	track := m.Alpha == nil && !m.inInit && st.InitMark > 0 && len(st.Frames) == 1 && st.Status == stRun && st.GlobalWrite == ""
+	if !track {
+		return m.run(st)
+	}
+	entry := st.Frames[0].Fn
+	outs := m.run(st)
+	for _, o := range outs {
+		if o.GlobalWrite != "" {
+			if _, seen := globalMutations[o.GlobalWrite]; !seen {
+				globalMutations[o.GlobalWrite] = fmt.Sprintf("interpreting %s stores into %s, which exists since package initialisation", fname(entry), o.GlobalWrite)
+			}
+			o.GlobalWrite = "" // reported once; later runs on this state are judged afresh
+		}
+	}
+	return outs
+}
+
+func (m *Machine) run(st *State) []*State {
 	var done []*State
 	work := []*State{st}
 	m.rangeSeen = map[string]bool{}
@@ -537,6 +683,9 @@ func (m *Machine) step(st *State) (forks []*State) {
 		}
 		caller := st.top()
 		call := caller.Blk.Instrs[caller.PC]
+		if _, deferredCall := call.(*ssa.RunDefers); deferredCall {
+			return nil // a deferred function returned: its results are dropped, the remaining defers run next
+		}
 		if cv, ok := call.(ssa.Value); ok {
 			caller.Regs[cv] = rv
 		}
@@ -548,6 +697,8 @@ func (m *Machine) step(st *State) (forks []*State) {
 		d := deferred{Site: x}
 		if x.Call.IsInvoke() {
 			d.Recv = m.get(st, fr, x.Call.Value)
+		} else if _, isBuiltin := x.Call.Value.(*ssa.Builtin); !isBuiltin {
+			d.Fn = m.get(st, fr, x.Call.Value)
 		}
 		for _, a := range x.Call.Args {
 			d.Args = append(d.Args, m.get(st, fr, a))
@@ -555,9 +706,11 @@ func (m *Machine) step(st *State) (forks []*State) {
 		fr.Defers = append(fr.Defers, d)
 		fr.PC++
 	case *ssa.RunDefers:
-		// deferred calls are run for their recorded effects only (hooks / opaque receivers)
-		for i := len(fr.Defers) - 1; i >= 0; i-- {
-			d := fr.Defers[i]
+		// deferred calls, last first: library calls through hooks / opaque receivers; repository
+		// functions and closures get a frame of their own, and this instruction is resumed when it returns
+		for len(fr.Defers) > 0 {
+			d := fr.Defers[len(fr.Defers)-1]
+			fr.Defers = fr.Defers[:len(fr.Defers)-1]
 			cc := &d.Site.Call
 			if cc.IsInvoke() {
 				if m.InvokeHook != nil {
@@ -569,14 +722,31 @@ func (m *Machine) step(st *State) (forks []*State) {
 				return nil
 			}
 			callee := cc.StaticCallee()
+			var bind []Val
+			if fv, ok := d.Fn.(*FuncV); ok {
+				if f, ok := fv.Fn.(*ssa.Function); ok {
+					callee, bind = f, fv.Bind
+				}
+			}
 			if callee == nil {
 				st.stuck("deferred dynamic call")
 				return nil
 			}
 			if h, ok := m.Hooks[callee.String()]; ok {
 				if _, handled := h(m, st, cc, d.Args); handled {
+					if st.Status != stRun {
+						return nil
+					}
 					continue
 				}
+			}
+			if callee.Blocks != nil && inRepoOrRef(callee) && len(st.Frames) <= 64 {
+				cargs := make([]Val, len(d.Args))
+				for i, a := range d.Args {
+					cargs[i] = cloneVal(a)
+				}
+				st.push(callee, cargs, bind)
+				return nil // the Return of that frame comes back to this RunDefers
 			}
 			st.stuck("deferred call of unmodelled function %s", callee.String())
 			return nil
@@ -598,6 +768,10 @@ func (m *Machine) step(st *State) (forks []*State) {
 				return nil
 			}
 			st.stuck("store through %T", a)
+			return nil
+		}
+		if p.RO {
+			st.stuck("store into a table slot selected by a class of input bytes")
 			return nil
 		}
 		if m.OnStore != nil {
@@ -791,6 +965,36 @@ func (m *Machine) step(st *State) (forks []*State) {
 				iv = int64(b) // a table indexed by an input byte whose value is known
 			}
 		}
+		if sv, isSym := iv.(SymV); isSym && m.Alpha != nil && sv.C >= 0 && sv.C < len(m.Alpha.Members) {
+			// a table indexed by an input byte of a class: decided when every byte of the class selects the same value
+			if bp, isPtr := base.(Ptr); isPtr {
+				if lv, ok := st.load(bp); ok {
+					if arr, isArr := lv.(*ArrayV); isArr {
+						same := true
+						var first string
+						for k, b := range m.Alpha.Members[sv.C] {
+							if int(b) >= len(arr.E) {
+								same = false
+								break
+							}
+							r := fmtVal(arr.E[b], func(i int) string { return fmt.Sprint(i) })
+							if k == 0 {
+								first = r
+							} else if r != first {
+								same = false
+								break
+							}
+						}
+						if same && len(m.Alpha.Members[sv.C]) > 0 {
+							set(Ptr{Obj: bp.Obj, Path: pathAppend(bp.Path, int(m.Alpha.Members[sv.C][0])), RO: true})
+							return nil
+						}
+						st.stuck("table lookup by input byte: the bytes of class %s select different entries (or lie outside the table)", m.Alpha.Names[sv.C])
+						return nil
+					}
+				}
+			}
+		}
 		i, ok := iv.(int64)
 		if !ok {
 			st.stuck("indexaddr with %T", iv)
@@ -837,7 +1041,7 @@ func (m *Machine) step(st *State) (forks []*State) {
 	case *ssa.MakeSlice:
 		lv := m.get(st, fr, x.Len)
 		n, ok := lv.(int64)
-		if !ok || n < 0 || n > 64 {
+		if !ok || n < 0 || n > 4096 {
 			st.stuck("makeslice with length %v", lv)
 			return nil
 		}
@@ -862,7 +1066,9 @@ func (m *Machine) step(st *State) (forks []*State) {
 			st.stuck("map update on %T", m.get(st, fr, x.Map))
 			return nil
 		}
+		st.own(mv.Obj)
 		mo := st.Heap[mv.Obj].V.(*MapObjV)
+		st.noteGlobalWrite(mv.Obj)
 		k := cloneVal(m.get(st, fr, x.Key))
 		v := cloneVal(m.get(st, fr, x.Value))
 		ks := fmtVal(k, func(i int) string { return fmt.Sprint(i) })
@@ -884,18 +1090,27 @@ func (m *Machine) step(st *State) (forks []*State) {
 		switch mv := base.(type) {
 		case MapV:
 			mo := st.Heap[mv.Obj].V.(*MapObjV)
-			switch k.(type) {
-			case string, int64, bool:
-			default:
-				st.stuck("map lookup with an abstract key (%T)", k)
-				return nil
-			}
-			ks := fmtVal(k, func(i int) string { return fmt.Sprint(i) })
 			var val Val
 			found := false
-			for i := range mo.K {
-				if fmtVal(mo.K[i], func(i int) string { return fmt.Sprint(i) }) == ks {
-					val, found = cloneVal(mo.V[i]), true
+			switch k.(type) {
+			case string, int64, bool:
+				ks := fmtVal(k, func(i int) string { return fmt.Sprint(i) })
+				for i := range mo.K {
+					if fmtVal(mo.K[i], func(i int) string { return fmt.Sprint(i) }) == ks {
+						val, found = cloneVal(mo.V[i]), true
+					}
+				}
+			default:
+				// composite keys (arrays / structs of scalars and input bytes): compared component by component
+				for i := range mo.K {
+					eq, decided := m.keyEqual(k, mo.K[i])
+					if !decided {
+						st.stuck("map lookup with an abstract key (%T)", k)
+						return nil
+					}
+					if eq {
+						val, found = cloneVal(mo.V[i]), true
+					}
 				}
 			}
 			if !found {
@@ -1252,6 +1467,22 @@ func (m *Machine) callFn(st *State, fr *Frame, x *ssa.Call, fn *ssa.Function, ar
 		}
 		if handled {
 			return finish(alts)
+		}
+	}
+	if name == "(*sync.Once).Do" && len(args) == 2 {
+		// the first Do on a Once runs f in place of the call, later ones do nothing
+		if op, ok := args[0].(Ptr); ok {
+			key := fmt.Sprintf("once:%d/%s", op.Obj, op.Path)
+			if st.Notes[key] {
+				return finish([]Val{nil})
+			}
+			if fv, ok := args[1].(*FuncV); ok {
+				if f, ok := fv.Fn.(*ssa.Function); ok && f.Blocks != nil && inRepoOrRef(f) {
+					st.Notes[key] = true
+					st.push(f, nil, fv.Bind)
+					return nil
+				}
+			}
 		}
 	}
 	if fn.Blocks == nil || !inRepoOrRef(fn) {
@@ -2282,6 +2513,12 @@ func (m *Machine) Key(st *State) string {
 	}
 	for _, id := range order {
 		o := st.Heap[id]
+		if id < st.InitMark && st.GlobalWrite == "" {
+			// allocated by the package initialisers and never written since (a store would have set GlobalWrite):
+			// the same in every state of this machine, so its identity stands for its content (lookup tables)
+			fmt.Fprintf(&b, "|o%d=init#%d", name[id], id)
+			continue
+		}
 		if m.ReadFields != nil {
 			if s, ok := o.T.Underlying().(*types.Struct); ok {
 				if sv, ok := o.V.(*StructV); ok {
@@ -2410,6 +2647,8 @@ func (m *Machine) linop(st *State, op token.Token, a, b Val) (Val, bool) {
 // (which must have no frames), so that package-level tables have their
 // initial values. Init functions of other packages are skipped.
 func (m *Machine) InitPackages(st *State, pkgs ...string) string {
+	m.inInit = true
+	defer func() { m.inInit = false }()
 	if st.Globals == nil {
 		st.Globals = map[*ssa.Global]int{}
 	}
